@@ -2,6 +2,9 @@
 from __future__ import annotations
 
 import time
+import warnings
+
+from pokerkit.state import Automation
 from typing import Any
 
 from harness import common as C
@@ -13,8 +16,11 @@ META = {
         'XY = XYs + XYo disjoint, "+" and "-" forms = union of members, separators interchangeable, elements are two '
         'distinct real cards). Equities: the real calculate_equities on fully specified deals with a parametric evaluator '
         '(strength per player/type = z3 integer, optional no-low): shares >= 0, sum 1, independent of sample_count, equal '
-        'to the share rule of the engine/C02 oracle. ICM: the REAL calculate_icm is executed on z3 Real variables '
-        '(operator overloading, no translation) and z3 (nlsat) proves non-negativity, sum = prize pool and chip order => '
+        'to the share rule of the engine/C02 oracle; and, with the real hand types of 10 predefined variants (hi, lo, hi/lo, '
+        'draw, stud), equal to the fractions of the pot the REAL engine pushes for the same checked-down deal (208 solver-chosen '
+        'deck orders per variant and player count). ICM: the REAL calculate_icm is executed on z3 Real variables '
+        '(operator overloading, no translation; for the order obligation also cut at chip_percentages, the cut checked on the AST '
+        'and the composition checked term by term) and z3 (nlsat) proves non-negativity, sum = prize pool and chip order => '
         'value order for all positive chips and non-increasing payouts.'),
     'functions': ['analysis.parse_range', 'analysis.__parse_range', 'analysis.calculate_equities', 'analysis.__calculate_equities_0',
                   'analysis.calculate_hand_strength', 'analysis.calculate_icm'],
@@ -149,6 +155,78 @@ def h_equity(ctx: Any, n: int, hilo: bool, levels: int = 0) -> None:
         ctx.check(abs(sum(eq) - 1.0) < 1e-9, 'shares-do-not-sum-to-one', lambda: f'{eq}')
         ctx.check(all(abs(a - b) < 1e-9 for a, b in zip(eq, res[0])), 'depends-on-sample-count', lambda: f'{res}')
         ctx.check(all(abs(a - b) < 1e-9 for a, b in zip(eq, exp)), 'differs-from-the-engine-split', lambda: f'{eq} expected {exp}')
+    ctx.cover('done')
+
+
+ENGINE_GAMES = {
+    # code: (kwargs for make_game beyond n/stacks/automations)
+    'NT': dict(antes=0, blinds=(60, 120), min_bet=120), 'NS': dict(antes=60, blinds=(0, 120), min_bet=120),
+    'PO': dict(antes=0, blinds=(60, 120), min_bet=120), 'FO8': dict(antes=0, blinds=(60, 120), small_bet=120, big_bet=240),
+    'F7S': dict(antes=60, bring_in=60, small_bet=120, big_bet=240), 'F7S8': dict(antes=60, bring_in=60, small_bet=120, big_bet=240),
+    'FR': dict(antes=60, bring_in=60, small_bet=120, big_bet=240),
+    'N2L1D': dict(antes=0, blinds=(60, 120), min_bet=120), 'F2L3D': dict(antes=0, blinds=(60, 120), small_bet=120, big_bet=240),
+    'FB': dict(antes=0, blinds=(60, 120), small_bet=120, big_bet=240),
+}
+
+
+def h_equity_engine(ctx: Any, code: str, n: int) -> None:
+    """the REAL game engine pays a checked-down hand (deck order chosen by the solver among stride x rotation
+    presets); calculate_equities with every card given must return exactly the fractions of the pot the engine paid."""
+    import pokerkit.analysis as A
+    from harness.manual import at_player_decision
+    A.sample = lambda population, k: list(population)[:k]
+    A.choices = lambda population, k: [list(population)[0]] * k
+    stride = [1, 3, 5, 7, 9, 11, 15, 17][ctx.choice('stride', 8)]
+    rot = ctx.choice('rot', 26) * 2
+    C.set_deck_order(f'stride{stride}+rot{rot}')
+    warnings.simplefilter('ignore')
+    cfg = dict(ENGINE_GAMES[code], n=n, stacks=(12000,) * n, automations=tuple(Automation))
+    st = C.make_state(code, cfg)
+    guard = 0
+    while st.status:
+        guard += 1
+        ctx.check(guard < 200, 'no-termination')
+        if st.can_post_bring_in():
+            st.post_bring_in()
+        elif st.can_stand_pat_or_discard():
+            st.stand_pat_or_discard()
+        elif at_player_decision(st):
+            st.check_or_call()
+        else:
+            ctx.fail('stuck')
+    # everybody paid the same (check/call-down, equal stacks): what a player is pushed is his share of one pot
+    paid = None
+    for op in st.operations:
+        if type(op).__name__ == 'ChipsPushing':
+            paid = [0] * n if paid is None else paid
+            for i, a in enumerate(op.amounts):
+                paid[i] += a
+    ctx.check(paid is not None, 'no-push')
+    pot = sum(paid)
+    ctx.check(pot > 0 and pot % 12 == 0, 'pot', lambda: f'{pot}')       # divisible: no odd chips in any split
+    holes = []
+    for i in range(n):
+        cards = []
+        for op in st.operations:
+            if type(op).__name__ == 'HoleDealing' and op.player_index == i:
+                cards.extend(op.cards)
+        holes.append(cards)
+    if any(type(op).__name__ == 'StandingPatOrDiscarding' and op.cards for op in st.operations):
+        ctx.assume(False)
+    board = [c for op in st.operations if type(op).__name__ == 'BoardDealing' for c in op.cards]
+    hole_count = len(holes[0])
+    ctx.check(all(len(h) == hole_count for h in holes), 'hole-count')
+    res = []
+    for sc in (1, 3):
+        res.append(list(A.calculate_equities([[h] for h in holes], board, hole_count, len(board), st.deck, st.hand_types,
+                                             sample_count=sc)))
+    shares = [p / pot for p in paid]
+    for eq in res:
+        ctx.check(abs(sum(eq) - 1.0) < 1e-9 and all(e >= -1e-12 for e in eq), 'not-a-split-of-one-pot', lambda: f'{eq}')
+        ctx.check(all(abs(a - b) < 1e-9 for a, b in zip(eq, shares)), 'differs-from-what-the-engine-paid',
+                  lambda: f'{code} holes {holes} board {board}: equities {eq}, engine paid {paid} of {pot}')
+    if len(set(shares)) > 1 and 0 < max(shares) < 1:
+        ctx.cover('split')
     ctx.cover('done')
 
 
@@ -397,6 +475,10 @@ def jobs(tier: str, seed: int) -> list[dict]:
             out.append(dict(name=f'equities/n{n}/{"hilo" if hilo else "hi"}', fn='h_equity',
                             params=dict(n=n, hilo=hilo, levels=2 if (hilo and n == 3) else 0), budget_s=B,
                             must_cover=['done']))
+    for code, n in (('NT', 2), ('NT', 3), ('NS', 2), ('PO', 2), ('FO8', 2), ('FO8', 3), ('F7S', 2), ('F7S8', 2), ('F7S8', 3),
+                    ('FR', 2), ('FR', 3), ('N2L1D', 2), ('F2L3D', 2), ('FB', 2), ('FB', 3)):
+        out.append(dict(name=f'equities/engine/{code}/n{n}', fn='h_equity_engine', traced=False, params=dict(code=code, n=n),
+                        budget_s=B, must_cover=['done']))
     out.append(dict(name='equities/ranges-with-collisions', fn='h_equity_ranges', traced=False, params={}, budget_s=B,
                     must_cover=['done', 'collision']))
     for n, k in ((2, 2), (3, 2), (3, 3), (4, 3)):
